@@ -280,6 +280,11 @@ func (f *framer) Handle0RTTRejection() {
 	for id := range f.activeStreams {
 		delete(f.activeStreams, id)
 	}
+	// Stream-level control frames (RESET_STREAM, STOP_SENDING, MAX_STREAM_DATA) of the rejected attempt
+	// belong to streams that don't exist any more. The stream IDs will be used again.
+	for id := range f.streamsWithControlFrames {
+		delete(f.streamsWithControlFrames, id)
+	}
 	var j int
 	for i, frame := range f.controlFrames {
 		switch frame.(type) {
